@@ -13,7 +13,7 @@ from fractions import Fraction
 import common as C
 
 ID = "C07"
-COQ_TARGETS = ["GenFacts/IntervalFacts.vo", "Properties/C07.vo"]
+COQ_TARGETS = ["GenFacts/IntervalFacts.vo", "GenFacts/IntervalSrcFacts.vo", "Properties/C07.vo"]
 MODEL_TARGETS = ["Model/Interval.vo"]
 IMPORTS = "From Ka Require Import Model.Interval.\nOpen Scope string_scope.\n"
 CASE_TYPE = "list (Q * Q) * list (Q * Q * Q) * list (Q * Q * Q) * iexpr"
